@@ -16,14 +16,16 @@ pub struct ModelProg {
 impl ModelProg {
     fn opts(&self, rng: &mut Rng) -> Opts {
         match self.id {
-            "C09" => Opts { data: true, func: false, tron: false, stop: rng.coin(), max_lines: 40 },
-            "C10" => Opts { data: false, func: true, tron: false, stop: false, max_lines: 24 },
+            "C09" => Opts { data: true, func: false, tron: false, stop: rng.coin(), max_lines: 40, input: rng.chance(1, 5), frac: rng.coin() },
+            "C10" => Opts { data: false, func: true, tron: false, stop: false, max_lines: 24, input: false, frac: rng.coin() },
             _ => Opts {
                 data: rng.chance(1, 5),
                 func: false,
                 tron: rng.chance(1, 4),
                 stop: true,
                 max_lines: 44,
+                input: rng.chance(1, 3),
+                frac: rng.coin(),
             },
         }
     }
@@ -73,7 +75,7 @@ impl Prop for ModelProg {
             ctx.evals += 1;
             return;
         }
-        let r = run_fresh(&lines, &["RUN".to_string()], &[], 5000, 100_000);
+        let r = run_fresh(&lines, &["RUN".to_string()], &p.replies, 5000, 100_000);
         if r.stop == Stop::Budget {
             ctx.violation("no-stop", "no-stop", "program the model finishes did not stop within 100,000 execute calls", &text);
             return;
